@@ -10,9 +10,9 @@
     names.  [font_equiv] is the equality of the property: everything but the creator, numbers /
     colours under the part equalities, feature text up to line endings, stores byte-identical. *)
 Require Import Norad.Model.GlifSpec Norad.Model.GlifEncode Norad.Proofs.GlifEncodeP Norad.Proofs.GlifRoundtripP Norad.Proofs.GlifFullP.
-Require Import Norad.Model.Base Norad.Model.FontRT Norad.Model.FontToy Norad.Model.FontNum Norad.Model.FontRealInfo Norad.Model.FontReal Norad.Model.FontRealPlist Norad.Model.FontRealFiles
+Require Import Norad.Model.Base Norad.Model.FontRT Norad.Model.FontToy Norad.Model.FontNum Norad.Model.FontRealInfo Norad.Model.FontReal Norad.Model.FontRealPlist Norad.Model.FontRealFiles Norad.Model.FontInfoFile Norad.Model.FontInfoSchema
                Norad.Proofs.FontRealInfoP
-               Norad.Proofs.FontRTP Norad.Proofs.FontToyP Norad.Proofs.FontNumP Norad.Proofs.FontRealP Norad.Proofs.PlistNfP Norad.Proofs.FontRealFilesP.
+               Norad.Proofs.FontRTP Norad.Proofs.FontToyP Norad.Proofs.FontNumP Norad.Proofs.FontRealP Norad.Proofs.PlistNfP Norad.Proofs.FontRealFilesP Norad.Proofs.FontInfoFileP.
 Open Scope N_scope.
 
 Theorem C01_roundtrip : forall (S : sig), sig_ok S -> forall o (f : font S),
@@ -290,3 +290,58 @@ Proof. split; [exact lib_sample_wf|split; [exact groups_sample_wf|split; [exact 
 Example C01_all_files_sample_font_valid : forall pf ff ff3 fi fh to_bits of_bits lw,
   font_valid _ (sample_font pf ff ff3 fi fh to_bits of_bits lw).
 Proof. exact sample_font_valid. Qed.
+
+(** ---------- fontinfo.plist: the on-disk shape ----------
+    Model/FontInfoFile.v is a schema-directed plist codec: a schema lists, for every key of a record,
+    the schema of the value and the flags of the Rust field — [opt] (an [Option]: written iff Some,
+    a missing key read as None), [skip] (skip_serializing_if = "Vec::is_empty": an empty list is
+    not written), [dflt] (#[serde(default)]: a missing key read as the default) — plus
+    deny_unknown_fields; leaves are strings, booleans, machine integers with their range, f64
+    written integer-or-real or always <real>, enums as integers or strings, lists, fixed-length
+    sequences.  [write_s] / [read_s] are what serde's derived impls do with a plist.
+
+    PROVED, by induction on the schema: when the writer's and the reader's flags agree
+    ([schema_rt_ok]: every field the writer may leave out is one the reader fills in with the same
+    value, keys distinct, integer ranges within a plist integer) every well-typed value is read
+    back from what is written for it ([C01_schema_roundtrip]) and what is written is a value the
+    tree-level plist writer represents, so the round trip holds down to the XML tree
+    ([C01_fontinfo_file_roundtrip], under the L1 number-text facts).  The flags matter: an empty
+    list skipped by the writer of a field the reader requires is not read back
+    ([C01_schema_flags_matter]).
+
+    ANCHORED: [font_info_schema] (Model/FontInfoSchema.v) — all fields of `FontInfo`, guidelines,
+    gasp range records, name records, OS/2 family class and Panose, the WOFF metadata structs, the
+    enums — is extracted from src/fontinfo.rs / src/guideline.rs on every run and compared with the
+    constant; [schema_rt_ok] of the extracted schema is recomputed (Anchors/AnchorsOK_C01.v).
+    TIED: every fontinfo.plist norad wrote (C01) or loaded (C04) in a sample of the correspondence
+    cases is compared at tree level with [write_s font_info_schema] / [read_s font_info_schema].
+    NOT connected yet: [P_info_real] of the font-level theorems still carries only the validated
+    fields of C13; string leaves with their own validation (guideline name / colour / identifier) are
+    plain strings here; [FontInfo::validate] is C13's subject. *)
+Theorem C01_schema_roundtrip : forall s, schema_rt_ok s = true ->
+  forall v, wt s v = true -> read_s s (write_s s v) = Some v.
+Proof. exact schema_roundtrip. Qed.
+Theorem C01_schema_written_is_writable : forall s, schema_rt_ok s = true ->
+  forall v, wt s v = true -> pv_good 0 (write_s s v) = true.
+Proof. exact write_good. Qed.
+Theorem C01_schema_flags_matter :
+  schema_rt_ok bad_schema = false /\
+  wt bad_schema (VRec [VList []]) = true /\
+  read_s bad_schema (write_s bad_schema (VRec [VList []])) = None /\
+  schema_rt_ok good_schema = true /\
+  read_s good_schema (write_s good_schema (VRec [VList []])) = Some (VRec [VList []]).
+Proof. exact skip_without_default_refuted. Qed.
+Theorem C01_fontinfo_schema_roundtrip : forall v, wt font_info_schema v = true ->
+  read_s font_info_schema (write_s font_info_schema v) = Some v.
+Proof. exact font_info_roundtrip. Qed.
+Theorem C01_fontinfo_file_roundtrip : forall pf ff fi,
+  (forall x, fl_finite x = true -> pf (ff x) = Some x) ->
+  (forall z, int_ok z = true -> plist_int (fi z) = Some z) ->
+  forall v, wt font_info_schema v = true ->
+  obind (plist_value pf (plist_tree ff fi (write_s font_info_schema v))) (read_s font_info_schema) = Some v.
+Proof. exact fontinfo_file_roundtrip. Qed.
+Theorem C01_fontinfo_file_part_lawful : forall pf ff fi,
+  (forall x, fl_finite x = true -> pf (ff x) = Some x) ->
+  (forall z, int_ok z = true -> plist_int (fi z) = Some z) ->
+  forall O, part_ok (P_fontinfo_file pf ff fi O).
+Proof. exact fontinfo_file_part_ok. Qed.
